@@ -125,13 +125,17 @@ def specNext (f0 : Nat) (outs : List Nat) (k : Option Nat) : Nat :=
 def replaced {K} [LT K] [Add K] [Sub K] [Mul K] [DecidableLT K] (lo hi thr x : K) : Bool :=
   decide (x < lo + (hi - lo) * thr)
 
+def rmin (a b : Rat) : Rat := if a ≤ b then a else b
+def rmax (a b : Rat) : Rat := if a ≤ b then b else a
+
+/-- `torch.min(loss)` / `torch.max(loss)`; only used on non-empty vectors (`adaptiveStep` guards) -/
 def lmin : List Rat → Rat
   | [] => 0
-  | x :: xs => xs.foldl min x
+  | x :: xs => xs.foldl rmin x
 
 def lmax : List Rat → Rat
   | [] => 0
-  | x :: xs => xs.foldl max x
+  | x :: xs => xs.foldl rmax x
 
 /-- origin of a row: (draw number of the inner uniform sampler, row index) -/
 abbrev Row := Nat × Nat
